@@ -141,6 +141,32 @@ def run_cell(cell, seed):
             out.append(res(HELD, case, 'M-REF', ratio=ratio) if okc else res(VIOLATED, case, 'M-REF', d, ratio=ratio))
     except Exception as e:
         out.append(res(INCONCLUSIVE, case, 'M-REF', 'reference raised %r' % (e,)))
+    # a level whose coefficients are non-zero but sum to exactly zero (checkerboard +-1), dense elsewhere
+    yl, yh = make_pyramid(cell, 'randn', seed + 19, lo, det)
+    zj = rnd.randrange(J)
+    hj = yh[zj]
+    ii = torch.arange(hj.shape[-3]).reshape(-1, 1, 1) + torch.arange(hj.shape[-2]).reshape(1, -1, 1) + torch.arange(2).reshape(1, 1, -1)
+    board = (1.0 - 2.0 * (ii % 2)).to(torch.float64).expand_as(hj).clone()
+    if hj.shape[-3] * hj.shape[-2] % 2 == 0:          # an even number of entries per (re, im) plane: exact zero sums
+        # The NumPy reference is not trustworthy on this structured level itself (its all-zero shortcut in
+        # colifilt fires on the cancelling checkerboard: measured, the reference then violates its own
+        # additivity by 0.3-0.6).  The inverse is affine in one level, so the reference value is taken as
+        # the mean of the reference on two dense pyramids (board + R, board - R).
+        Rr = torch.randn(hj.shape, generator=util.gen(seed, 'zs', str(cell)), dtype=torch.float64)
+        yh0 = yh
+        yh = [board if j == zj else h for j, h in enumerate(yh0)]
+        case = {'cell': cell, 'input': 'randn', 'zero_sum_level': zj}
+        ok, y = util.call_lib(inv, (yl, yh))
+        try:
+            ref = 0.5 * sum(refs.dtcwt_inv(util.np64(yl), [c03.to_complex(board + sgn * Rr if j == zj else h) for j, h in enumerate(yh0)],
+                                           cell['biort'], cell['qshift']) for sgn in (1.0, -1.0))
+            if not ok:
+                out.append(res(VIOLATED, case, 'M-REF', 'library raised %r on a pyramid with a zero-sum level' % (y,)))
+            else:
+                okc, d, ratio = util.compare('inverse (one level sums to zero)', y, ref, 1e-11 * G * max(float(yl.abs().max()), 1.0) * 4)
+                out.append(res(HELD, case, 'M-REF', ratio=ratio) if okc else res(VIOLATED, case, 'M-REF', d, ratio=ratio))
+        except Exception as e:
+            out.append(res(INCONCLUSIVE, case, 'M-REF', 'reference raised %r' % (e,)))
     # certificate
     yl, yh = make_pyramid(cell, 'randn', seed + 3, lo, det)
     if util.call_lib(inv, (yl, yh))[0]:
